@@ -1,5 +1,6 @@
 #!/bin/sh
-# usage: try_patch.sh <patch.diff> <Cxx>...   applies the patch to /repo, runs the quick checks, reverts
+# usage: try_patch.sh <patch.diff> <Cxx>...   applies the patch to /repo, runs the quick checks, reverts.
+# The evidence files written while the patch is applied are thrown away afterwards (evidence must describe /repo itself).
 patch=$1; shift
 cd /repo && git apply "$patch" || { echo "patch does not apply"; exit 2; }
 for p in "$@"; do
@@ -7,3 +8,4 @@ for p in "$@"; do
   echo "$p: ${out:-no alarm}"
 done
 cd /repo && git checkout -- . && git status --short | head -3
+cd /verif && git checkout -- evidence
